@@ -246,6 +246,9 @@ def coerce(sv, pt):
             inner = sv.pt.args[0]
             v = coerce(SV(inner, opt_val(sv.pt, sv.t)), TCell)
             return SV(TCell, Ite(opt_is_none(sv.pt, sv.t), CNone(), v.t))
+    if k == 'key' and s == 'none':
+        smt.declare_fun('key_none', [], 'Key')
+        return SV(pt, App('key_none', (), 'Key'))
     if k == 'jkey':
         if s in ('cell', 'int', 'str', 'none'):
             return SV(pt, dt_ctor('JKey', 'K1', (coerce(sv, TCell).t,)))
